@@ -586,7 +586,7 @@ def c04(payload):
                 bad.append('near field does not merge into the reported far field: at %.0f wavelengths |E| = %.6g V/m, far field %.6g V/m (ratio %.4f)' % (R / lam, nE, ff, nE / ff))
             if abs(nE / nH / 376.7 - 1) > 0.01:
                 bad.append('far-zone E/H is not 376.7 ohm: %.2f ohm at %.0f wavelengths' % (nE / nH, R / lam))
-            if abs(np.dot(E, u)) > 0.03 * nE or abs(np.dot(H, u)) > 0.03 * nH:
+            if abs(np.dot(E, u)) > tolff * nE or abs(np.dot(H, u)) > tolff * nH:      # (long segments: few-point quadrature of the potentials, see tolff)
                 bad.append('far-zone fields are not transverse: E.r/|E| = %.3g, H.r/|H| = %.3g' % (abs(np.dot(E, u)) / nE, abs(np.dot(H, u)) / nH))
             r['bad'] = bad; r['cond'] = float(np.linalg.cond(m.Z)); r['npts'] = len(pts)
         except AssertionError:
